@@ -4,6 +4,7 @@
 package c01
 
 import (
+	"errors"
 	"fmt"
 	"os"
 	"path/filepath"
@@ -90,6 +91,10 @@ func genCase(t *rapid.T) Case {
 				op.TornPermille = rapid.IntRange(1, 999).Draw(t, "tornpm")
 			}
 			c.Ops = append(c.Ops, op)
+		case k < 16 && rapid.Bool().Draw(t, "faultbulk"):
+			// a bulk whose first write attempts fail (file size limit, lifted 20 ms later) and
+			// which the store then writes successfully and acknowledges
+			c.Ops = append(c.Ops, Op{Kind: "faultbulk", Docs: genDocs(t, &seq, ids), TornAbs: rapid.SampledFrom([]int{1, 40, 700, 5000, 0}).Draw(t, "faultat")})
 		case k < 16:
 			c.Ops = append(c.Ops, Op{Kind: "burst", Docs: genDocs(t, &seq, ids), Docs2: genDocs(t, &seq, ids),
 				DelayPoint: rapid.SampledFrom([]string{"aw.after_docs", "fw.written", "aw.before_docs", ""}).Draw(t, "delaypoint")})
@@ -116,7 +121,7 @@ type state struct {
 	inflight [][]model.Doc // never-acked bulks, each wholly present or wholly absent
 }
 
-func runCase(c Case) (evid.Result, error) {
+func runHistory(c Case) (evid.Result, error) {
 	res := evid.Result{}
 	dir := evid.ScratchDir("c01")
 	defer os.RemoveAll(dir)
@@ -138,6 +143,7 @@ func runCase(c Case) (evid.Result, error) {
 	if err := up(-1); err != nil {
 		return res, err
 	}
+	hang := ""
 	crashes, restartsAfterCrash, bulksAfterCrash := 0, 0, 0
 	tornSeen := false
 	for i, op := range c.Ops {
@@ -243,6 +249,27 @@ func runCase(c Case) (evid.Result, error) {
 				return res, evid.Failf("bulk-error", "step %d: %s", i, r.Err)
 			}
 			st.acked = append(st.acked, docs...)
+		case "faultbulk":
+			r, err := p.Do(harness.PCmd{Op: "bulkfault", Docs: op.Docs, Bytes: uint64(op.TornAbs), DelayMs: 20})
+			if err != nil {
+				return res, evid.Failf("died-in-bulk", "step %d: store died during a bulk whose first write attempts failed (exit %d): %s", i, p.Exit, p.StderrTail())
+			}
+			if !r.OK {
+				return res, evid.Failf("bulk-error", "step %d: %s", i, r.Err)
+			}
+			st.acked = append(st.acked, op.Docs...)
+			res.Labels = append(res.Labels, "bulk-acknowledged-after-failed-write-attempts")
+			if r.Failed != "" {
+				// the fraction can no longer become idle (seal and Stop would wait for ever);
+				// the history goes on from a kill, the acknowledged bulk must survive it
+				hang = fmt.Sprintf("step %d: %s", i, r.Failed)
+				p.Kill()
+				res.Labels = append(res.Labels, "indexing-hangs-after-failed-write-attempt")
+				continue
+			}
+			if err := verify(p, st, i, &res); err != nil {
+				return res, err
+			}
 		case "kill":
 			p.Kill()
 			res.Labels = append(res.Labels, "kill9")
@@ -273,6 +300,9 @@ func runCase(c Case) (evid.Result, error) {
 		return res, evid.Failf("stop-failed", "final: %v", err)
 	}
 	p = nil
+	if hang != "" {
+		return res, evid.Failf("indexing-hangs", "%s (everything acknowledged survived the restarts that followed)", hang)
+	}
 	res.NonTrivial = crashes >= 1 && bulksAfterCrash >= 1 && restartsAfterCrash >= 2
 	if tornSeen {
 		res.Labels = append(res.Labels, "has-torn-tail")
@@ -397,6 +427,21 @@ func verify(p *harness.Proc, st *state, step int, res *evid.Result) error {
 		res.Evals++
 	}
 	return nil
+}
+
+// runCase: failures of a history that contains a bulk with a transient write failure carry
+// that in their signature.
+func runCase(c Case) (evid.Result, error) {
+	res, err := runHistory(c)
+	var f *evid.Failure
+	if err != nil && errors.As(err, &f) {
+		for _, op := range c.Ops {
+			if op.Kind == "faultbulk" {
+				return res, evid.Failf("transient-write-failure:"+f.Sig, "%s", f.Msg)
+			}
+		}
+	}
+	return res, err
 }
 
 func TestProp(t *testing.T)   { evid.Check(t, genCase, runCase) }
